@@ -63,6 +63,22 @@ def _printable(world, obj, cls, ctx, shapes):
                 return
 
 
+def _numpy_protocol(world, obj, M, part, ctx):
+    """numpy conversion with the arguments numpy itself passes to ``__array__`` (dtype, copy): the advertised
+    ``np.array(this_obj)`` and a conversion to float must work and expose the same numbers."""
+    if M.dtype.kind not in "fiub":
+        return
+    try:
+        a = np.array(obj)
+        b = np.asarray(obj, dtype=float)
+    except Exception as e:  # noqa: BLE001
+        world.fail("D", "asarray-raises", f"{part}:{type(e).__name__}",
+                   f"numpy conversion of the {part} matrix raised {type(e).__name__}: {e}", ctx)
+        return
+    if not _eq(a, M) or not _eq(b, M.astype(float)):
+        world.fail("D", "asarray", part, "np.array(obj) / np.asarray(obj, dtype=float) expose other numbers", ctx)
+
+
 def _check_response(world, r, n_ret, ctx):
     world.bump("check.D.object")
     M = r.design_matrix
@@ -70,6 +86,7 @@ def _check_response(world, r, n_ret, ctx):
         world.fail("D", "rows", "response", f"response has {M.shape[0]} rows, {n_ret} observations are retained", ctx)
     if not _eq(np.asarray(r), M):
         world.fail("D", "asarray", "response", "np.asarray(response) differs from design_matrix", ctx)
+    _numpy_protocol(world, r, M, "response", ctx)
     try:
         df = r.as_dataframe()
     except Exception as e:  # noqa: BLE001
@@ -125,6 +142,7 @@ def _check_matrix(world, obj, part, n_rows, ctx, widened):
         world.fail("D", "getitem-unknown-accepted", part, "indexing by an unknown term name was accepted", ctx)
     if not _eq(np.asarray(obj), M):
         world.fail("D", "asarray", part, "np.asarray(obj) differs from design_matrix", ctx)
+    _numpy_protocol(world, obj, M, part, ctx)
     if part == "common":
         try:
             df = obj.as_dataframe()
@@ -136,7 +154,9 @@ def _check_matrix(world, obj, part, n_rows, ctx, widened):
             world.fail("D", "as_dataframe-values", part, "as_dataframe() exposes other numbers", ctx)
         labels = [str(x) for x in df.columns]
         if len(set(labels)) != ncols:
-            world.fail("D", "labels", part, f"{len(set(labels))} unique labels for {ncols} columns: {labels}", ctx)
+            dup = sorted(x for x in set(labels) if labels.count(x) > 1)
+            world.fail("D", "labels", f"{part}:{dup[0]}" if dup else part,
+                       f"{len(set(labels))} unique labels for {ncols} columns: {labels}", ctx)
     else:
         if not widened:
             labels = []
